@@ -22,6 +22,42 @@ Definition S (lg : bool) (sf : option (list Z)) (a : Z) (e : list Z) : sec := {|
 Definition both (l : list sec) := (wild_order l, gnu_order l).
 """
 
+# the extent model (C30/Extent.v) on the parts wild's layout actually produced (layout trace hook)
+IMPORTS_EXT = """From Coq Require Import ZArith List Bool. Import ListNotations.
+From WV Require Import C30.Extent.
+Open Scope Z_scope.
+Definition R (o s : Z) : rec := {| off := o; size := s; msize := s |}.
+Definition ext (p0 : Z) (bs : list (nat * Z)) (ids : list rec) :=
+  let sec := section p0 bs ids in (off sec, size sec, msize sec, map off (place (off (primary p0 bs)) bs)).
+"""
+
+
+def trace_extent(path, name):
+    """from the layout trace: (file offset of the primary's first part, [(alignment exponent, file offset, bytes)] of
+    the non-empty secondaries in layout order)"""
+    from props import c04
+    try:
+        tr = c04.parse_trace(path)
+    except Exception:
+        return None
+    prim, secs = None, []
+    for sc in tr["sections"]:
+        if sc["name"] != name or not sc["parts"]:
+            continue
+        ne = [p for p in sc["parts"] if p["file_size"] > 0]
+        if not sc["secondary"]:
+            prim = sc["parts"][0]["file"]
+            if ne:
+                return None          # the primary itself holds data: outside the model
+        elif ne:
+            lo = min(p["file"] for p in ne)
+            hi = max(p["file"] + p["file_size"] for p in ne)
+            al = max(p["align"] for p in ne)
+            secs.append((al.bit_length() - 1, lo, hi - lo))
+    if prim is None:
+        return None
+    return prim, secs
+
 GOOD_N = ["00100", "00101", "00200", "01000", "65534", "00000", "00005", "30000"]
 GOOD_LEG = ["00150", "65535", "65035", "00001", "00250", "30500", "65530"]
 BAD_N = ["100", "5", "0100", "65535", "65536", "70000", "4294967296", "2147483648", "4294967295", "abc", "12a", "", "065535"]
@@ -161,8 +197,10 @@ def read_order(path, secname_):
     base = secname_[1:]
     lo, hi = syms.get(f"__{base}_start"), syms.get(f"__{base}_end")
     if lo is None or hi is None or hi < lo:
-        return by_size, by_size
-    return entries(e.read_va(lo, hi - lo) or b""), by_size
+        return by_size, by_size, 0
+    raw = e.read_va(lo, hi - lo) or b""
+    by_sym = entries(raw)
+    return by_sym, by_size, len(raw) // 8 - len(by_sym)
 
 
 def coq_sec(lg, sf, al, ids):
@@ -196,13 +234,14 @@ def run(chk, replay=None):
              "with_archive": 0, "with_priorities": 0, "with_legacy": 0, "bad_suffix": 0, "mixed_align": 0, "not_name_determined": 0}
     d = tempfile.mkdtemp(prefix="c30")
     results = []      # (prog index, family, wild list, ld list)
+    extents = []      # (prog index, family, (primary offset, parts), (sh_offset, sh_size))
     try:
         for pi, files in enumerate(progs):
             args, err = build(d, files)
             if args is None:
                 chk.tie_break("as failed on a generated object", err[-500:])
                 continue
-            rcw, outw_ = sh(f"cd {d} && timeout 60 {wild} {' '.join(args)} -o out.wild", timeout=90)
+            rcw, outw_ = sh(f"cd {d} && rm -f trace && WILD_VERIF_LAYOUT={d}/trace timeout 60 {wild} {' '.join(args)} -o out.wild", timeout=90)
             rcl, outl = sh(f"cd {d} && timeout 60 ld {' '.join(args)} -o out.ld", timeout=90)
             if rcw != 0 or rcl != 0:
                 chk.tie_break("a generated program does not link", {"wild": outw_[-400:], "ld": outl[-400:], "program": files})
@@ -210,14 +249,18 @@ def run(chk, replay=None):
             if any(f["archive"] for f in files):
                 stats["with_archive"] += 1
             for fam, sn in (("init", ".init_array"), ("fini", ".fini_array"), ("pre", ".preinit_array")):
-                w_sym, w_size = read_order(d + "/out.wild", sn)
-                l_sym, l_size = read_order(d + "/out.ld", sn)
-                results.append((pi, fam, w_sym, l_sym if l_sym else l_size, w_size))
+                w_sym, w_size, w_zero = read_order(d + "/out.wild", sn)
+                l_sym, l_size, l_zero = read_order(d + "/out.ld", sn)
+                results.append((pi, fam, w_sym, l_sym if l_sym else l_size, w_size, w_zero, l_zero))
+                te = trace_extent(d + "/trace", sn) if os.path.exists(d + "/trace") else None
+                hdr = elfread.Elf(d + "/out.wild").section(sn)
+                if te is not None and te[1] and hdr is not None:
+                    extents.append((pi, fam, te, (hdr["offset"], hdr["size"])))
     finally:
         shutil.rmtree(d, ignore_errors=True)
     # the model on the same inputs
     items = []
-    for pi, fam, wl, ll, wsz in results:
+    for pi, fam, wl, ll, wsz, wz, lz in results:
         secs = [(lg, sf, al, ids) for f in progs[pi] for (fm, lg, sf, al, ids) in f["sections"] if fm == fam]
         items.append("both [" + "; ".join(coq_sec(*s) for s in secs) + "]")
     mres = []
@@ -234,8 +277,29 @@ def run(chk, replay=None):
         if okm and len(mres) != len(items):
             chk.tie_break("model evaluation: wrong number of answers", {"items": len(items), "answers": len(mres)})
             mres = []
+    # the extent model on wild's own parts: merge (any order) and place against the section header and the trace
+    stats["extent_families"] = len(extents)
+    if extents:
+        eitems = []
+        for pi, fam, (prim, parts), hdr in extents:
+            bs = "; ".join(f"({k}%nat, {sz})" for k, o, sz in parts)
+            ids = "; ".join(f"R {o} {sz}" for k, o, sz in reversed(parts))       # an order other than layout order
+            eitems.append(f"ext {prim} [{bs}] [{ids}]")
+        rc, out = coq_eval("c30ext", "Eval vm_compute in [\n" + ";\n".join(eitems) + "].\n", IMPORTS_EXT, timeout=600)
+        eres = parse_coq_value(out) if rc == 0 else []
+        if rc != 0 or len(eres) != len(extents):
+            chk.tie_break("extent model evaluation failed (coqc)", out[-1500:])
+        else:
+            for (pi, fam, (prim, parts), hdr), (mo, msz, mmsz, mplace) in zip(extents, eres):
+                rep = {"programs": [progs[pi]], "family": fam, "trace": {"primary": prim, "parts": parts}, "header": list(hdr), "model": [mo, msz, mplace]}
+                if list(mplace) != [o for k, o, sz in parts]:
+                    stats["model_mismatch"] += 1
+                    chk.tie_break("correspondence C30.place: the parts' offsets in wild's layout differ from the model's placement", rep)
+                if (mo, msz) != hdr or mmsz != msz:
+                    stats["model_mismatch"] += 1
+                    chk.tie_break("correspondence C30.section: the section header's offset/size differ from the model's merge of the parts", rep)
     samples = []
-    for (pi, fam, wl, ll, wsz), m in zip(results, mres):
+    for (pi, fam, wl, ll, wsz, wz, lz), m in zip(results, mres):
         secs = [(lg, sf, al, ids) for f in progs[pi] for (fm, lg, sf, al, ids) in f["sections"] if fm == fam]
         if not secs:
             continue
@@ -266,10 +330,12 @@ def run(chk, replay=None):
         if wsz != wl:
             what = (f".{fam}_array: the section header (and DT_{fam.upper()}_ARRAYSZ) covers {wsz} but __{fam}_array_start..end holds {wl}: "
                     "entries outside the section size are not run by the dynamic loader")
-            if mixed and "C30-mixed-alignment" in known:
-                chk.known_hit("C30-mixed-alignment", rep)
-            else:
-                chk.violation(what, rep)
+            chk.violation(what, rep)
+        over = any(al > 8 and (8 * len(ids)) % al for lg, sf, al, ids in secs)
+        if wz > lz and over and "C30-over-aligned-section-padded" in known:
+            chk.known_hit("C30-over-aligned-section-padded", rep)
+        elif wz > lz and not mixed:
+            chk.violation(f"__{fam}_array_start..end holds {wz} zero word(s) with wild and {lz} with GNU ld: start-up code calls every word of the array, a null one included", rep)
         if wl == ll:
             stats["wild_eq_ld"] += 1
         else:
